@@ -126,6 +126,33 @@ _SHARED_FIT_CACHE = labtech.cache.PickleCache(pickle_protocol=4)
 ShFit = _mk('ShFit', __name__, cache=_SHARED_FIT_CACHE)
 ShFitAll = _mk('ShFitAll', __name__, cache=_SHARED_FIT_CACHE)
 
+# type names that contain the separator labtech puts between the parts of a key, or end with it
+Fit__v2 = _mk('Fit__v2', __name__, fields=('p', 'q'))
+Fit_ = _mk('Fit_', __name__, fields=('p', 'q'))
+
+
+class PlainCache(labtech.cache.BaseCache):
+    """A cache format that keeps BaseCache's (empty) key prefix."""
+    RESULT_FILENAME = 'plain.pickle'
+
+    def save_result(self, storage, task, result):
+        import pickle
+        with storage.file_handle(task.cache_key, self.RESULT_FILENAME, mode='wb') as f:
+            pickle.dump(result, f)
+
+    def load_result(self, storage, task):
+        import pickle
+        with storage.file_handle(task.cache_key, self.RESULT_FILENAME, mode='rb') as f:
+            return pickle.load(f)
+
+
+class OddPrefixCache(PlainCache):
+    KEY_PREFIX = 'a__b_'
+
+
+EFoo = _mk('EFoo', __name__, fields=('p', 'q'), cache=PlainCache())
+ABFoo = _mk('ABFoo', __name__, fields=('p', 'q'), cache=OddPrefixCache())
+
 # module-level types whose names are legal non-ASCII identifiers (every key of such a type must be usable)
 Modèle = _mk('Modèle', __name__, fields=('p', 'q'))
 Эксперимент = _mk('Эксперимент', __name__, fields=('p', 'q'))
